@@ -67,10 +67,24 @@ Record gfeat := {
 }.
 (* base_similarity_properties() equal.  The code compares hash((options, frozenset(cfw))) where hash(options) =
    hash(_make_hashable(options.group)): two features fall into one class when the CANONICAL FORMS of their group options
-   are equal -- which is coarser than equality of the options ([1, 2] and (1, 2) have the same canonical form) *)
+   are equal up to hnorm -- which is coarser than equality of the options ([1, 2] and (1, 2) have the same canonical
+   form; "" and 0 have the same hash) *)
+(* CPython's hash is not injective on atoms either: hash("") = hash(0) = hash(False) = 0 and hash(-1) = hash(-2) = -2.
+   Tuples and frozensets hash the hashes of their elements, so canonical forms that differ only in these atoms have the
+   same hash.  Other collisions between different canonical forms are assumed away. *)
+Fixpoint hnorm (v : pyval) : pyval :=
+  match v with
+  | VStr s => if String.eqb s "" then VInt 0 else v
+  | VInt z => if Z.eqb z (-1) then VInt (-2) else v
+  | VTuple l => VTuple (map hnorm l)
+  | VFSet l => VFSet (map hnorm l)
+  | VList l => VList (map hnorm l)         (* lists / sets do not occur in canonical forms; kept uniform *)
+  | VSet l => VSet (map hnorm l)
+  | _ => v
+  end.
 Definition base_eqb (a b : gfeat) : bool :=
   match hash_key (VDict (g_group a)), hash_key (VDict (g_group b)) with
-  | Some x, Some y => py_eq x y
+  | Some x, Some y => py_eq (hnorm x) (hnorm y)
   | _, _ => false
   end && py_eq (cfw_val (g_cfw a)) (cfw_val (g_cfw b)).
 Fixpoint first_idx {A} (p : A -> bool) (l : list A) : nat :=
